@@ -463,10 +463,21 @@ def word_cases(sess, rng, n):
             return "".join(rng.choice(letters + digits + punct) for _ in range(k))
         return rng.choice(["and", "or", "if", "the", "for all", "such that", "sin", "arcsin", "lim", "log", "mod", "Not", "a.m.", "U.S.", "e.g.", "x-y", "1st", "2nd", "n-th"])
 
+    quotes = [c for c in "\"'()[]«»“”‘’<|" if c in pool_all] or ["\"", "'"]
+
     def tok():
         w = word()
         el = rng.choice(["mi", "mi", "mtext", "mtext", "mn", "mo"])
         v = rng.choice(VARIANTS) if rng.random() < 0.4 else None
+        if rng.random() < 0.07:
+            # a string literal: default quotes, or the author's own (characters the code defines, so they must come out as cells)
+            t = token("ms", w, None)
+            k = rng.random()
+            if k < 0.7:
+                t.attrs["lquote"] = rng.choice(quotes)
+            if k > 0.3:
+                t.attrs["rquote"] = rng.choice(quotes)
+            return t
         return token(el, w, v)
 
     def chem():
@@ -934,6 +945,13 @@ def shard(spec):
                     tree = trees[i]
                 else:
                     tree = gen.Textbook(rng, decimal=sess.decimal, max_depth=rng.choice([2, 3, 4]), p_ident=0.4).expression()[0]
+                if rng.random() < 0.08:
+                    # an id is an arbitrary attribute value, the empty string included: an element whose author id is '' must not be taken
+                    # for the navigation node when no node is given
+                    inner = [n for n, _ in tree.walk() if n.kids and n.tag != "math"]
+                    if inner:
+                        rng.choice(inner).attrs["id"] = ""
+                        st.count("cases_with_an_empty_author_id")
                 ids = add_ids(tree)
                 nav_id = rng.choice(ids) if ids else None
                 styles = ["Off", rng.choice(STYLES[1:])] if tier == "quick" or item["part"] in ("chars", "corpus") else list(STYLES)
